@@ -37,6 +37,8 @@ structure St where
 structure OC where
   mode : OpenMode := .none
   wild : Nat := 0
+  strict : Bool := false           -- the open-content wildcard has processContents="strict"
+  globals : List QN := []          -- names of the global element declarations (`root.maps.elements`)
   deriving Repr, Inhabited
 
 section
@@ -340,7 +342,8 @@ def visitorMatchO (oc : OC) (s : St) (q : QN) : Bool × St :=
   else if !leafMatches A (some s.cnt) oc.wild q then (false, s)
   else if (iterElements A s.group).any fun e => leafMatches A (some s.cnt) e q && !isOver A s.cnt e
     then (false, s)
-  else (true, { s with advModel := false })     -- processContents ≠ strict assumed (harness uses lax)
+  else if oc.strict && !oc.globals.contains q then (false, s)   -- strict: only declared names are absorbed
+  else (true, { s with advModel := false })
 
 /-- `advance` of the open-content visitors (models.py:777-787, 809-817). -/
 def advanceO (oc : OC) (s : St) (mtch : Bool) : Step :=
